@@ -13,6 +13,7 @@ import numpy as np
 from ..channels import draw_read_channel, read_via, write_via
 from ..core import Prop, Result
 from ..simfs import SimFS, Policy
+from ..swarm import neutral_read_kw, neutral_write_kw, fix_kw
 
 FMTS = ["%.5f", "%.0f", "%.1f", "%.2f", "%.3f", "%.4f", "%.6f", "%.10f", "%.3e", "%.6e", "%.16e", "%g", "%.12g", "%12.4f",
         "%10.3e", "%.15g"]
@@ -119,7 +120,9 @@ class C01(Prop):
         sc = {"cols": [[None if x is None else float(x).hex() for x in c] for c in cols], "kw": kw, "column_fmt": cfmt,
               "lnf": lnf, "data_width": width, "null": null, "engine": g.choice(["numpy", "normal"]),
               "out": g.choice(["path", "stream", "stringio"]), "channel": draw_read_channel(g, ascii_only=True),
-              "policy": Policy.draw(st.io).to_json(), "names": g.choice(["plain", "plain", "long"])}
+              "policy": Policy.draw(st.io).to_json(), "names": g.choice(["plain", "plain", "long", "mixed"]),
+              "case": g.choice(["preserve", "preserve", "upper", "lower"]), "nkw": neutral_read_kw(g),
+              "nwkw": neutral_write_kw(g, present=tuple(kw) + ("column_fmt", "len_numeric_field", "data_width"))}
         return sc
 
     # ---------------------------------------------------------------------------------------------------------
@@ -129,6 +132,7 @@ class C01(Prop):
         cols = [[float("nan") if x is None else float.fromhex(x) for x in c] for c in sc["cols"]]
         nc, nr = len(cols), len(cols[0])
         kw = copy.deepcopy(sc["kw"])
+        kw.update(fix_kw(sc.get("nwkw") or {}))
         fmt = kw.get("fmt", "%.5f")
         cfmt = {int(k): v for k, v in sc["column_fmt"].items() if int(k) < nc}
         if cfmt:
@@ -168,7 +172,7 @@ class C01(Prop):
             las.well["NULL"].value = sc["null"]
         names = []
         for j in range(nc):
-            nm = "DEPT" if j == 0 else ("C%d" % j if sc["names"] == "plain" else "CURVE_NUMBER_%d_LONG" % j)
+            nm = "DEPT" if j == 0 else ("C%d" % j if sc["names"] == "plain" else ("Gr%dx" % j if sc["names"] == "mixed" else "CURVE_NUMBER_%d_LONG" % j))
             names.append(nm)
             las.append_curve(nm, np.array(cols[j], dtype=float), unit="M" if j == 0 else "U", descr="curve %d" % j)
         fs = SimFS(policy=Policy.from_json(sc["policy"]))
@@ -179,7 +183,7 @@ class C01(Prop):
                 res.violate("C01.write-raised", "write(%r) raised %s: %s" % (kw, type(e).__name__, str(e)[:200]))
                 return res
             try:
-                back = read_via(fs, text, sc["channel"], {"engine": sc["engine"], "mnemonic_case": "preserve"}, tag="c01")
+                back = read_via(fs, text, sc["channel"], fix_kw(dict(sc.get("nkw") or {}, engine=sc["engine"], mnemonic_case=sc.get("case", "preserve"))), tag="c01")
             except Exception as e:
                 res.violate("C01.unreadable", "lasio cannot read its own output (nc=%d nr=%d kw=%r engine=%s): %s: %s" % (
                     nc, nr, kw, sc["engine"], type(e).__name__, str(e).strip().splitlines()[-1][:200] if str(e).strip() else ""))
@@ -197,6 +201,8 @@ class C01(Prop):
             res.violate("C01.curve-count", "%d curves written, %d read back (nr=%d kw=%r engine=%s)" % (nc, len(bc), nr, kw, sc["engine"]))
             return res
         got_names = [c.original_mnemonic for c in bc]
+        cf = {"upper": str.upper, "lower": str.lower}.get(sc.get("case", "preserve"), str)
+        names = [cf(n) for n in names]
         if got_names != names or back.keys() != names:
             res.violate("C01.mnemonics", "mnemonics %r read back as %r / %r" % (names[:6], got_names[:6], back.keys()[:6]))
             return res
@@ -249,8 +255,8 @@ class C01(Prop):
             del d["kw"][k]
             yield d
         for k, v in (("column_fmt", {}), ("lnf", None), ("data_width", 79), ("null", None), ("out", "stringio"), ("names", "plain"),
-                     ("engine", "normal")):
-            if sc[k] != v:
+                     ("engine", "normal"), ("case", "preserve")):
+            if sc.get(k, v) != v:
                 d = copy.deepcopy(sc)
                 d[k] = v
                 yield d
